@@ -219,8 +219,9 @@ let lane_paged args =
   let (args, stop) = (match args with [a; b; c; k] -> ([a; b; c], Some (int_of_string k)) | _ -> (args, None)) in
   match args with
   | [size; uc; pages] ->
+      let chained = String.contains uc 'E' in
       let user = (if String.contains uc 'P' then [CPaged (n_of_int 5, [])] else []) @
-                 List.init (int_of_string (String.concat "" (List.filter (fun x -> x <> "P") (List.map (String.make 1) (List.of_seq (String.to_seq (String.sub uc 1 (String.length uc - 1)))))))) (fun k -> COther (nat_of_int k)) in
+                 List.init (int_of_string (String.concat "" (List.filter (fun x -> x <> "P" && x <> "E") (List.map (String.make 1) (List.of_seq (String.to_seq (String.sub uc 1 (String.length uc - 1)))))))) (fun k -> COther (nat_of_int k)) in
       let parse_page (p : string) : page =
         let parts = String.split_on_char ',' p in
         (* items after "w" are withheld by the scripted server: the caller never gets that far *)
@@ -239,7 +240,11 @@ let lane_paged args =
        | None -> "rejected"
        | Some s0 ->
            let total = List.fold_left (fun a p -> a + List.length p.p_items + 1) 2 pgs in
-           let (items, s') = (match stop with None -> drain1 true (nat_of_int total) s0 | Some k -> take_items true (nat_of_int k) s0) in
+           (* behind EntriesOnly: the composed loop (Paged.eo_drain) hands on the entries and collects the reference tokens *)
+           let (items, s', eo_refs) = (match stop, chained with
+             | None, true -> let ((es, rs), s1) = eo_drain true (nat_of_int total) s0 [] in (List.map (fun k -> Entry k) es, s1, Some rs)
+             | None, false -> let (l, s1) = drain1 true (nat_of_int total) s0 in (l, s1, None)
+             | Some k, _ -> let (l, s1) = take_items true (nat_of_int k) s0 in (l, s1, None)) in
            (* finish(): the result, and the id it scrubs; an id is still reserved afterwards only if the page in flight has not been
               answered in full (withheld) and is not the one scrubbed *)
            let withheld_pages = List.mapi (fun i p -> (i + 1, List.mem "w" (String.split_on_char ',' p))) (String.split_on_char ';' pages) in
@@ -256,8 +261,9 @@ let lane_paged args =
            let fin = match Some fres with
              | Some r -> Printf.sprintf "rc=%s paged_in_final=%d others=%d" (decimal_of_n r.rc1) (if List.exists is_paged r.ctrls then 1 else 0) (List.length (List.filter (fun c -> not (is_paged c)) r.ctrls))
              | None -> "nores" in
-           Printf.sprintf "items=[%s] end=%s %s wire=[%s] left=%s//%s" (String.concat "," (List.map show_it items))
-             (match st_before with Done0 -> "done" | Active0 -> "active" | SError1 -> "error" | Closed0 -> "closed") fin (String.concat ";" (List.map show_req s'.wire)) left_s left_s)
+           Printf.sprintf "items=[%s] end=%s %s wire=[%s] left=%s//%s%s" (String.concat "," (List.map show_it items))
+             (match st_before with Done0 -> "done" | Active0 -> "active" | SError1 -> "error" | Closed0 -> "closed") fin (String.concat ";" (List.map show_req s'.wire)) left_s left_s
+             (match eo_refs with Some rs -> Printf.sprintf " refs=[%s]" (String.concat "," (List.map (fun k -> string_of_int (int_of_nat k)) rs)) | None -> ""))
   | _ -> "BAD-ARGS"
 
 (* ---- connection set-up (C18) and TLS establishment (C17) ---- *)
@@ -274,7 +280,8 @@ let lane_setup args =
         | PErr0 EEmptyUnixPath -> "err:emptyunix" | PErr0 EPortInUnixPath -> "err:portunix" | PErr0 EMismatched -> "err:mismatched" | PErr0 EUnknownScheme -> "err:scheme"
         | PTcp (_, port, m, _) -> Printf.sprintf "tcp port=%s mode=%s" (decimal_of_n port) (mode m)
         | PPreTcp (m, _) -> "pretcp mode=" ^ mode m
-        | PUnix path -> "unix path=" ^ hex_of_bytes path
+        | PUnix path ->       (* the lane listens on one socket path only: any other path cannot be connected to *)
+            if hex_of_bytes path = hex_of_bytes (bytes_of_string "/tmp/l3h-setup.sock") then "unix path=" ^ hex_of_bytes path else "err:io no-contact"
         | PPreUnix -> "preunix"
       end
   | _ -> "BAD-ARGS"
